@@ -491,6 +491,9 @@ def install(tr, gw):
         undo.append((base, name, old))
         if name == "close":
             tr.orig_close = old       # the unwrapped close(): what a callback calls when it closes the client from inside
+        if name == "send":
+            tr.orig_send = old        # likewise for a callback that sends (a traced coroutine nested in another task's step
+            #                           is not something the tracer can account for)
     old = _wrap_inner(tr, base, "_update_state")
     undo.append((base, "_update_state", old))
     for cls in (io.EByteNmea2000Gateway, io.TextNmea2000Gateway, io.WaveShareNmea2000Gateway):
@@ -967,8 +970,39 @@ async def _session(spec, tr, gw, obs, loop):
     client = cls("/dev/fake", **ckw) if cname == "waveshare" else cls("gw.invalid", 1, **ckw)
     tr.client = client
     # the constructor created the consumer task through the wrapped _process_queue: remember Traced -> Task
-    client.set_status_callback(on_status)
-    client.set_receive_callback(on_message)
+    # how the callbacks are handed to the client (spec key "cbkind"): the async functions themselves; objects whose
+    # __call__ is async; lambdas that return the coroutine; or (status only, "syncraise") a plain function that raises
+    cbkind = spec.get("cbkind", "func")
+    scb, rcb_ = on_status, on_message
+    if cbkind == "obj":
+        class _Obj:
+            def __init__(self, f):
+                self.f = f
+
+            async def __call__(self, *a):
+                return await self.f(*a)
+        scb, rcb_ = _Obj(on_status), _Obj(on_message)
+    elif cbkind == "lambda":
+        scb, rcb_ = (lambda s_: on_status(s_)), (lambda m_: on_message(m_))
+    elif cbkind == "syncraise":
+        def scb(s_):           # not a coroutine function: records the notification, then raises at call time
+            status.append([loop.time(), s_.value, bool(tr.client.lock.locked())])
+            tr.ev("scb", s_.value, "enter")
+            tr.ev("scb", s_.value, "raise")
+            raise RuntimeError("plain status callback failure (scripted)")
+    elif cbkind == "sends":
+        sent_once = [False]
+
+        async def scb(s_):     # an application that answers a state change by sending (here: when told DISCONNECTED)
+            await on_status(s_)
+            if s_.value == 0 and not sent_once[0]:
+                sent_once[0] = True
+                try:
+                    await asyncio.wait_for(tr.orig_send(tr.client, msg), 20.0)
+                except asyncio.TimeoutError:
+                    obs["callback_send_stuck"] = loop.time()
+    client.set_status_callback(scb)
+    client.set_receive_callback(rcb_)
     user_tasks = []
     close_info = {"called": None, "returned": None}
     obs["close"] = close_info
@@ -1100,6 +1134,8 @@ async def _session(spec, tr, gw, obs, loop):
     try:
         if rcb_close_at is not None or scb_close_on is not None:
             raise Unlabelled("oracle-only session: close() called from inside a callback is not a schedule of the LTS")
+        if spec.get("cbkind") in ("syncraise", "sends"):
+            raise Unlabelled("oracle-only session: callback kind outside the LTS (plain function / callback that sends)")
         labels = labelise(tr.blocks)
         obs["labels"] = [[a, s] for a, s in labels]
         obs["unlabelled"] = None
